@@ -447,3 +447,34 @@ func init() {
 		return []Val{{T: app("u64of", b), S: SInt, GoT: fc.resT(e)}}
 	}
 }
+
+// bzMk: the byte string with exactly the given elements (constructor function per length, so equal
+// literals are equal terms in code and in specs).
+func (fc *FCtx) bzMk(es []string) string {
+	n := len(es)
+	fn := fmt.Sprintf("bzmk_%d", n)
+	if !fc.U.declared["f:"+fn] {
+		bz := fc.U.BzSort()
+		var sorts []*Sort
+		var bs, as []string
+		for i := 0; i < n; i++ {
+			sorts = append(sorts, SInt)
+			bs = append(bs, fmt.Sprintf("(x%d Int)", i))
+			as = append(as, fmt.Sprintf("x%d", i))
+		}
+		fc.U.Fun(fn, sorts, bz)
+		appl := app(fn, as...)
+		cs := []string{fmt.Sprintf("(= (bz_len %s) %d)", appl, n), fmt.Sprintf("(= (bz_cap %s) %d)", appl, n), fmt.Sprintf("(not (= %s bz_nil))", appl)}
+		var guards []string
+		for i := 0; i < n; i++ {
+			guards = append(guards, fmt.Sprintf("(in_uint8 x%d)", i))
+			cs = append(cs, fmt.Sprintf("(= (bz_at %s %d) x%d)", appl, i, i))
+		}
+		if n == 0 {
+			fc.U.Axiom("byte literal of length 0", and(cs...))
+		} else {
+			fc.U.Axiom(fmt.Sprintf("byte literal of length %d", n), fmt.Sprintf("(forall (%s) (! (=> %s %s) :pattern (%s)))", strings.Join(bs, " "), and(guards...), and(cs...), appl))
+		}
+	}
+	return app(fn, es...)
+}
